@@ -217,6 +217,11 @@ impl ZalsaLocal {
                 crate::verif_trace::K(database_key_index)
             ))
         });
+        #[cfg(salsa_verif)]
+        crate::verif_trace::ts(
+            "push",
+            format_args!("{}", crate::verif_trace::K(database_key_index)),
+        );
         // SAFETY: We do not access the query stack reentrantly.
         unsafe {
             self.with_query_stack_unchecked_mut(|stack| {
@@ -2004,6 +2009,17 @@ pub(crate) struct ActiveQueryGuard<'me> {
 impl<'me> ActiveQueryGuard<'me> {
     /// Initialize the tracked struct ids with the values from the prior execution.
     pub(crate) fn seed_tracked_struct_ids(&self, tracked_struct_ids: &[(Identity, Id)]) {
+        #[cfg(salsa_verif)]
+        if crate::verif_trace::structs_enabled() {
+            crate::verif_trace::ts(
+                "seed",
+                format_args!(
+                    "{} {}",
+                    crate::verif_trace::K(self.database_key_index),
+                    crate::tracked_struct::verif::pairs(tracked_struct_ids)
+                ),
+            );
+        }
         // SAFETY: We do not access the query stack reentrantly.
         unsafe {
             self.local_state.with_query_stack_unchecked_mut(|stack| {
@@ -2023,6 +2039,18 @@ impl<'me> ActiveQueryGuard<'me> {
         let untracked_read = previous.is_derived_untracked();
 
         let tracked_ids = previous.tracked_struct_ids();
+
+        #[cfg(salsa_verif)]
+        if crate::verif_trace::structs_enabled() {
+            crate::verif_trace::ts(
+                "seed_iteration",
+                format_args!(
+                    "{} {}",
+                    crate::verif_trace::K(self.database_key_index),
+                    crate::tracked_struct::verif::pairs(tracked_ids)
+                ),
+            );
+        }
 
         // SAFETY: We do not access the query stack reentrantly.
         unsafe {
